@@ -15,6 +15,8 @@ def plan(tier):
     for perm in ((0,) if q else range(6)):
         fx = {"eig_perm": perm, "_k1_w": 0, "_k1_e0": 1, "_k1_e1": 1}
         I.append(inst(f"from_reflection[n=2,eigenvalue-order={perm}]", 'harness.c15', 'from_reflection', dict(n=2), opts=dict(fix=fx), weight=300, timeout_s=1500))
+    if not q:
+        I.append(inst("composite-rejection[reflection + rotation]", 'harness.c15', 'composite_rejection', {}, opts=dict(fix={"eig_perm0": 0, "eig_perm1": 0}, max_vars=64), weight=300, timeout_s=1500))
     pairs = [(0, 3), (1, 4), (5, 0), (2, 2), (3, 1)] if q else [(a, b) for a in range(6) for b in range(6)]
     for (a, b) in pairs:
         I.append(inst(f"composite-fixed-points[eigenvalue-orders=({a},{b})]", 'harness.c15', 'composite_fixed_points', dict(n=2),
@@ -31,7 +33,7 @@ def plan(tier):
                      "rejected on every path (GeometryError)"),
         bounds=dict(dimension="H^2 (simple spectrum)", conjugators="standard_rotation(theta) for loxodromics, standard_loxodromic(mu) for elliptics", lam="all lambda > 1, all rotation angles except 0 and pi"),
         outside=["parabolic isometries (not diagonalisable: no eigen stub)", "dimension >= 3 (eigenvalue 1 is repeated: the simple-spectrum stub does not apply)",
-                 "the composite rejection rule of from_reflection (composites are covered for fixed_point_pair only, with a per-element eigen stub)",
+                 "the composite rejection rule of from_reflection is checked in the thorough tier only (one eigenvalue order, 10 min)",
                  "reflections arising from Coxeter representations (hyperbolic_rep is outside, see C08)"],
         assumptions=["eigenvector norms in [1/2, 2]; real eigenvectors for real eigenvalues (LAPACK contract)", "lambda > 1; sin(theta) != 0"],
     )
